@@ -291,3 +291,97 @@ func VerifC10ForgedInBatch() {
 		vstub.Assert(inView(a, e), "C10 ... and are in the view")
 	}
 }
+
+// VerifC10Before: the BEFORE clause.  Valid entries of an authorised writer are
+// replicated first; LATER an announcement arrives whose fetched log the join
+// refuses (a tampered, re-addressed copy of the writer's last entry - genuine
+// identity block, signature over other content -, a non-writer's entry, or a
+// writer's entry on top of a non-writer's).  The entries merged before stay in
+// log and view, and they are all there again after a restart and load.
+func VerifC10Before() {
+	blocks := vstub.NewBlocks(nil)
+	prov := vstub.NewProvider()
+	w2 := vstub.NewIdentity("w2", prov)
+	m := vstub.NewIdentity("mallory", prov)
+	ac := vstubodb.Writers(vstub.IDOf("a"), vstub.IDOf("w2"))
+	a, env := openAC("a", blocks, ac)
+	if a == nil {
+		return
+	}
+	ctx := context.Background()
+	n := 1 + vstub.NdChoice("valid-entries", 2)
+	var lw *ipfslog.IPFSLog
+	var valid []ipfslog.Entry
+	for k := 0; k < n; k++ {
+		var e ipfslog.Entry
+		lw, e = appendAs(env, lw, a.id, w2, []byte{'v', byte(k)})
+		if e == nil {
+			return
+		}
+		valid = append(valid, e)
+	}
+	if err := a.Sync(ctx, []ipfslog.Entry{valid[n-1].Copy()}); err != nil {
+		vstub.Fail("C10 honest Sync failed")
+		return
+	}
+	vstub.WaitIdle()
+	// optionally a local write too (its head lives in the other heads key)
+	if vstub.NdChoice("local-write-too", 2) == 1 {
+		addN(a, 1, 'l')
+	}
+	var bad ipfslog.Entry
+	rejected := vstub.NdChoice("rejected", 3)
+	switch rejected {
+	case 0:
+		c := valid[n-1].Copy()
+		c.SetPayload([]byte("tampered"))
+		bad = readdress(env, c)
+		vstub.Cover("tampered-readdressed")
+	case 1:
+		_, bad = appendAs(env, nil, a.id, m, []byte("m"))
+		vstub.Cover("non-writer")
+	case 2:
+		lm, me := appendAs(env, nil, a.id, m, []byte("m"))
+		if me == nil {
+			return
+		}
+		lm.SetIdentity(w2)
+		_, bad = appendAs(env, lm, a.id, w2, []byte("on-top"))
+		vstub.Cover("bad-ancestor")
+	}
+	if bad == nil {
+		return
+	}
+	_ = a.Sync(ctx, []ipfslog.Entry{bad.Copy()})
+	vstub.WaitIdle()
+	vstub.Cover("rejected-later")
+	for _, e := range valid {
+		vstub.Assert(inLog(a, e) && inView(a, e), "C10 entries merged BEFORE a rejected announcement stay visible")
+	}
+	want := a.OpLog().Len()
+	_ = a.Close()
+	vstub.WaitIdle()
+	env2 := vstubodb.NewEnv("a", 1, "db", blocks, nil)
+	env2.Cache = env.Cache
+	opts := env2.Options(false)
+	opts.AccessController = ac
+	r := &BaseStore{}
+	if err := r.InitBaseStore(env2.IPFS, env2.Identity, env2.Addr, opts); err != nil {
+		vstub.Fail("InitBaseStore failed")
+		return
+	}
+	if err := r.Load(ctx, -1); err != nil {
+		vstub.Fail("C10 Load after restart failed")
+		return
+	}
+	vstub.WaitIdle()
+	vstub.Cover("restarted")
+	for _, e := range valid {
+		vstub.Assert(inLog(r, e), "C10 entries merged before a rejected announcement are reloaded after a restart")
+	}
+	if rejected != 2 {
+		// (a writer's entry sitting on a non-writer's ancestor is itself valid: whether it
+		// is kept without its ancestry is not this property's business)
+		vstub.Assert(r.OpLog().Len() == want, "C10 a restart after a rejected announcement reloads exactly what the replica held")
+	}
+}
